@@ -463,6 +463,8 @@ type MemVCS struct {
 	Commits int
 	Results []string
 	Prefix  string // ReleasePath prefix
+	// Retriable makes RetriableError answer true for every error (a back end whose failures are all transient).
+	Retriable bool
 }
 
 // NewMemVCS returns an empty repository.
@@ -500,7 +502,7 @@ func (v *MemVCS) GetChangeOps(context.Context) (endorse.ChangeOps, error) {
 	v.exit(seq, nil)
 	return ws, nil
 }
-func (v *MemVCS) RetriableError(error) bool { return false }
+func (v *MemVCS) RetriableError(error) bool { return v.Retriable }
 func (v *MemVCS) Result(commit any, p string) {
 	v.mu.Lock()
 	v.Results = append(v.Results, fmt.Sprintf("%v:%s", commit, p))
